@@ -66,9 +66,10 @@ def Ty.strip : Ty → Bool × Ty
   | .ptr e => (true, e)
   | t => (false, t)
 
+/-- a named STRUCT type declared in package `p` (what `makeSubMap` accepts: `isStructType`) -/
 def Ty.isNamedIn (t : Ty) (p : Pkg) : Bool :=
   match t with
-  | .named q _ _ => q == p
+  | .named q _ (.struct _) => q == p
   | _ => false
 
 def Ty.isStructNamed : Ty → Bool
@@ -130,10 +131,11 @@ def appendOrReplace : List Field → Field → List Field
       (if x.depth < f.depth then { f with path := x.path, ty := x.ty, depth := x.depth } :: fs else f :: fs)
     else f :: appendOrReplace fs x
 
-/-- `extractStructFields` (go/types level: no tag handling below the top level) -/
+/-- `extractStructFields` (go/types level; the struct tag is read: `map:"-"` leaves the promoted field out) -/
 def walkNested (pre : List String) (d : Nat) : Tree → List Field
   | .nil => []
-  | .field f rest => { name := f.name, path := pre ++ [f.name], ty := f.ty, depth := d } :: walkNested pre d rest
+  | .field f rest =>
+    (if f.tag = .skip then [] else [{ name := f.name, path := pre ++ [f.name], ty := f.ty, depth := d }]) ++ walkNested pre d rest
   | .embed n _ body rest => walkNested (pre ++ [n]) (d + 1) body ++ walkNested pre d rest
 
 /-- `extractTopFiels` (AST level: `map:"-"` skips the field) -/
@@ -143,7 +145,14 @@ def walkTop : Tree → List Field
     (if f.tag = .skip then [] else [{ name := f.name, path := [f.name], ty := f.ty, depth := 0 }]) ++ walkTop rest
   | .embed n _ body rest => walkNested [n] 1 body ++ walkTop rest
 
-def flatten (t : Tree) : List Field := (walkTop t).foldl appendOrReplace []
+/-- names of the top-level fields tagged `map:"-"`: they stay out AND hide promoted fields of the same name -/
+def skippedTop : Tree → List String
+  | .nil => []
+  | .field f rest => (if f.tag = .skip then [f.name] else []) ++ skippedTop rest
+  | .embed _ _ _ rest => skippedTop rest
+
+def flatten (t : Tree) : List Field :=
+  ((walkTop t).foldl appendOrReplace []).filter (fun f => !(skippedTop t).contains f.name)
 
 /-- `ptrTypeMap` keys: paths of the embedded POINTER structs -/
 def ptrPaths (pre : List String) : Tree → List (List String)
@@ -152,15 +161,14 @@ def ptrPaths (pre : List String) : Tree → List (List String)
   | .embed n p body rest =>
     (if p then [pre ++ [n]] else []) ++ ptrPaths (pre ++ [n]) body ++ ptrPaths pre rest
 
-/-- `tagMap[Pascal(name)] = Pascal(tag)` for the top-level fields — keyed by the FIRST name of a
-    declaration only (`name := f.Names[0].Name`, fields.go:84) -/
+/-- `tagMap[Pascal(name)] = Pascal(tag)`: every name of a declaration, promoted fields included -/
 def tagMap : Tree → List (String × String)
   | .nil => []
   | .field f rest =>
     (match f.tag with
-     | .name t => if f.joined then [] else [(pascalS f.name, pascalS t)]
+     | .name t => [(pascalS f.name, pascalS t)]
      | _ => []) ++ tagMap rest
-  | .embed _ _ _ rest => tagMap rest
+  | .embed _ _ body rest => tagMap body ++ tagMap rest
 
 /-- Go map semantics: a later assignment to the same key wins -/
 def mapGet (m : List (String × String)) (k : String) : Option String :=
@@ -182,7 +190,7 @@ def canNameMatch (tm : List (String × String)) (ic : Bool) (f1 f2 : Field) : Bo
   else if f1.isSet && f2.isSet then false
   else
     let m1 := f1.matchingName
-    let m1 := (mapGet tm m1).getD m1
+    let m1 := (mapGet tm (pascalS m1)).getD m1
     if ic then equalFold m1 f2.matchingName else smartMatch m1 f2.matchingName
 
 /-! ## Claims -/
@@ -228,11 +236,12 @@ def claimFrom (st : St) (f1 f2 : Field) (s : Strat) : St :=
 def hasToTarget (st : St) (f1 : Field) : Bool := st.toC.any (fun c => c.rd == f1)
 def hasFromTarget (st : St) (f2 : Field) : Bool := st.fromC.any (fun c => c.rd == f2)
 
+/-- every claim site also requires the READING field not to be a setter pseudo-field -/
 def funcTo (f1 f2 : Field) (k : Nat) (fn : Fn) (st : St) : St :=
-  if fn.param == f1.ty && fn.result == f2.ty then claimTo st f1 f2 (.func k) else st
+  if fn.param == f1.ty && fn.result == f2.ty && !f1.isSet then claimTo st f1 f2 (.func k) else st
 
 def funcFrom (f1 f2 : Field) (k : Nat) (fn : Fn) (st : St) : St :=
-  if fn.param == f2.ty && fn.result == f1.ty then claimFrom st f1 f2 (.func k) else st
+  if fn.param == f2.ty && fn.result == f1.ty && !f2.isSet then claimFrom st f1 f2 (.func k) else st
 
 /-- one iteration of the method loop of `makeFuncMap` -/
 def funcStep (f1 f2 : Field) (kf : Nat × Fn) (st : St) : St := funcFrom f1 f2 kf.1 kf.2 (funcTo f1 f2 kf.1 kf.2 st)
@@ -247,11 +256,16 @@ def funcLoop (f1 f2 : Field) : List (Nat × Fn) → St → St
 
 /-- `makeSubMap`: both (pointer-stripped) types named, the source one declared in the source
     package, the destination one in the destination package — of whatever underlying kind -/
+def subTo (f1 f2 : Field) (t1 t2 : Ty) (isSlice : Bool) (st : St) : St :=
+  if t1.strip.2.isNamedIn .src && t2.strip.2.isNamedIn .dest && !f1.isSet then
+    claimTo st f1 f2 (if isSlice then .each t1.strip.1 t2.strip.1 else .sub t1.strip.1 t2.strip.1) else st
+
+def subFrom (f1 f2 : Field) (t1 t2 : Ty) (isSlice : Bool) (st : St) : St :=
+  if t1.strip.2.isNamedIn .src && t2.strip.2.isNamedIn .dest && !f2.isSet then
+    claimFrom st f1 f2 (if isSlice then .each t2.strip.1 t1.strip.1 else .sub t2.strip.1 t1.strip.1) else st
+
 def subMap (f1 f2 : Field) (t1 t2 : Ty) (isSlice : Bool) (st : St) : St :=
-  if t1.strip.2.isNamedIn .src && t2.strip.2.isNamedIn .dest then
-    claimFrom (claimTo st f1 f2 (if isSlice then .each t1.strip.1 t2.strip.1 else .sub t1.strip.1 t2.strip.1))
-      f1 f2 (if isSlice then .each t2.strip.1 t1.strip.1 else .sub t2.strip.1 t1.strip.1)
-  else st
+  subFrom f1 f2 t1 t2 isSlice (subTo f1 f2 t1 t2 isSlice st)
 
 /-- `makeSubListMap` -/
 def subListMap (f1 f2 : Field) (st : St) : St :=
@@ -266,11 +280,13 @@ def mismatchStep (fns : List Fn) (st : St) (p : Field × Field) : St :=
   subListMap p.1 p.2 (subMap p.1 p.2 p.1.ty p.2.ty false (funcLoop p.1 p.2 (indexed fns) st))
 
 def matchTo (conv : List (Ty × Ty)) (f1 f2 : Field) (st : St) : St :=
-  if (matchType conv f1.ty f2.ty).1 then claimTo st f1 f2 .assign
+  if f1.isSet then st
+  else if (matchType conv f1.ty f2.ty).1 then claimTo st f1 f2 .assign
   else if (matchType conv f1.ty f2.ty).2 then claimTo st f1 f2 .conv else st
 
 def matchFrom (conv : List (Ty × Ty)) (f1 f2 : Field) (st : St) : St :=
-  if (matchType conv f1.ty f2.ty).1 then claimFrom st f1 f2 .assign
+  if f2.isSet then st
+  else if (matchType conv f1.ty f2.ty).1 then claimFrom st f1 f2 .assign
   else if (matchType conv f2.ty f1.ty).2 then claimFrom st f1 f2 .conv else st
 
 /-- one name-matched pair in `makeTypeMatch` -/
@@ -294,10 +310,9 @@ structure CtorArg where
   strat : Strat := .assign
   deriving DecidableEq, Repr, Inhabited
 
-/-- the inner `for _, fn := range mappingFuncList` of makeCtorMatch: no break, so the LAST method of
-    matching types wins (makeFuncMap: the first) -/
+/-- the `for _, fn := range mappingFuncList` of makeCtorMatch: the FIRST method of exactly the types wins (`break`) -/
 def ctorFunc (f p : Field) (fns : List (Nat × Fn)) : Option Nat :=
-  ((fns.filter (fun kf => kf.2.param == f.ty && kf.2.result == p.ty)).getLast?).map (·.1)
+  ((fns.filter (fun kf => kf.2.param == f.ty && kf.2.result == p.ty)).head?).map (·.1)
 
 /-- one (field, parameter) visit of `makeCtorMatch`; `acc.1` is the write-set of the side the ctor builds -/
 def ctorVisit (conv : List (Ty × Ty)) (fns : List Fn) (nm : Field → Field → Bool)
@@ -305,11 +320,13 @@ def ctorVisit (conv : List (Ty × Ty)) (fns : List Fn) (nm : Field → Field →
   if fp.1.isSet then acc
   else if !nm fp.1 fp.2 then acc
   else if acc.1.contains fp.2.name then acc
-  else if (matchType conv fp.1.ty fp.2.ty).1 then (fp.2.name :: acc.1, acc.2 ++ [⟨fp.2, some fp.1, .assign⟩])
-  else if (matchType conv fp.1.ty fp.2.ty).2 then (fp.2.name :: acc.1, acc.2 ++ [⟨fp.2, some fp.1, .conv⟩])
   else match ctorFunc fp.1 fp.2 (indexed fns) with
+    -- like the field loops: a mapper method with exactly the types first, then same / convertible
     | some k => (fp.2.name :: acc.1, acc.2 ++ [⟨fp.2, some fp.1, .func k⟩])
-    | none => acc
+    | none =>
+      if (matchType conv fp.1.ty fp.2.ty).1 then (fp.2.name :: acc.1, acc.2 ++ [⟨fp.2, some fp.1, .assign⟩])
+      else if (matchType conv fp.1.ty fp.2.ty).2 then (fp.2.name :: acc.1, acc.2 ++ [⟨fp.2, some fp.1, .conv⟩])
+      else acc
 
 /-- `for f in fields { for p in params { … } }` -/
 def ctorFold (conv : List (Ty × Ty)) (fns : List Fn) (nm : Field → Field → Bool)
@@ -368,9 +385,7 @@ def litParamMap (pre : List String) : Ctor.Lit → List (String × String × Lis
   | .nil => []
   | .kv n (.param p) rest => (p, n, pre ++ [n]) :: litParamMap pre rest
   | .kv _ (.defx _) rest => litParamMap pre rest
-  -- `Base: &Base{…}` is a unary expression: extractFromCompositeLit (ctor.go:243) only descends into a
-  -- plain composite literal, so the parameters of a POINTER-embedded struct are not recovered
-  | .sub n _ isPtr body rest => (if isPtr then [] else litParamMap (pre ++ [n]) body) ++ litParamMap pre rest
+  | .sub n _ _ body rest => litParamMap (pre ++ [n]) body ++ litParamMap pre rest     -- `Base: Base{…}` and `Base: &Base{…}`
 
 /-- directive semantics of `shoot new -getset` on an unexported field: no directive or both ⇒ both -/
 def FDecl.hasGet (f : FDecl) : Bool := !isExported f.name && (f.get || !f.set)
@@ -417,14 +432,16 @@ structure Input where
   manualW : List String := []      -- field paths assigned in the body of the manual write hook (toX/writeX): pre-claimed
   manualR : List String := []      -- … of the manual read hook (fromX/readX)
   /-- some struct embeds a POINTER to a struct it lies inside of (`type T struct{ *T; … }`, or T embeds B and B embeds *T).
-      The trees hold the finite unfolding: such an embed is a pointer embed with an empty body (all it could promote is
-      hidden by the shallower occurrence) -/
+      The trees hold the finite unfolding: such an embed is a pointer embed with an empty body — exactly what the field
+      walk collects (a struct that is being expanded is not entered again), and all the back reference could promote is
+      hidden by the shallower occurrence. The flag itself has no effect on the model -/
   cyclic : Bool := false
   deriving Repr, Inhabited
 
-/-- expandIfStruct / extractStructFields (fields.go) follow embedded structs without bound: on a cyclic embedding the
-    field walk never returns (the process dies when it runs out of stack or memory) -/
-def genDiverges (inp : Input) : Bool := inp.cyclic
+/-- parseManual, ref:02: an unexported field the read hook assigns on the receiver of a shoot-new type is keyed `SetX` —
+    the name its constructor parameter and its setter share; everything else under its own name -/
+def Input.readKeys (inp : Input) : List String :=
+  inp.manualR.map (fun n => if inp.srcNew && !isExported n then "Set" ++ pascalS n else n)
 
 /-- `g.exportedFields` after makeCompatible: exported flattened fields, then getters, then setters -/
 def sideFields (t : Tree) (isNew : Bool) : List Field :=
@@ -449,7 +466,7 @@ def plan (inp : Input) : Plan :=
   let nm := inp.nm
   -- makeCtorMatch: destination ctor against source fields (tag map), source ctor against destination fields (no tag map)
   let c1 := ctorMatch inp.conv inp.fns nm fs (sideParams inp.dest inp.destNew) inp.manualW
-  let c2 := ctorMatch inp.conv inp.fns (canNameMatch [] inp.ic) ds (sideParams inp.src inp.srcNew) inp.manualR
+  let c2 := ctorMatch inp.conv inp.fns (fun f p => nm p f) ds (sideParams inp.src inp.srcNew) inp.readKeys
   let st := planFields inp.conv inp.fns (pairs nm fs ds) { wD := c1.1, wS := c2.1 }
   { srcFields := fs, destFields := ds, st := st, destCtor := c1.2, srcCtor := c2.2 }
 
@@ -749,13 +766,12 @@ def stmtCompiles (rs ws : Tree) (c : Claim) : Bool :=
   (resolveField rs c.rd).isSome && (resolveField ws c.wr).isSome && (!c.rd.isSet || c.wr.ty == .basic "any") &&
   (match c.strat with
    | .sub _ _ | .each _ _ => (elemOf c.rd.ty).isStructNamed && (elemOf c.wr.ty).isStructNamed
-   | .conv => !isPtrTy c.wr.ty && !c.wr.ty.mentionsSrc
    | _ => true)
 
 def argCompiles (rs : Tree) (a : CtorArg) : Bool :=
   match a.rd with
   | none => true
-  | some rd => (resolveField rs rd).isSome && (!rd.isSet || a.p.ty == .basic "any") && !(a.strat == .conv && (isPtrTy a.p.ty || a.p.ty.mentionsSrc))
+  | some rd => (resolveField rs rd).isSome && (!rd.isSet || a.p.ty == .basic "any")
 
 inductive Outcome where
   | panic
